@@ -40,9 +40,14 @@ def rcn(gene, profile, max_cn, cov, fusion_support=None, configs=None):
     default = [n for n in names if cfgs[n].kind == CNConfigType.DEFAULT]
     res = {}
     use_pseudo_slots = has_p and dele_in is not None and dele_in in names
-    for comp in itertools.product(*[range(0, 3) for _ in names]):
-        if sum(comp) != 2:
-            continue
+    pairs = []
+    for i in range(len(names)):
+        for j in range(i, len(names)):
+            c = [0] * len(names)
+            c[i] += 1
+            c[j] += 1
+            pairs.append(tuple(c))
+    for comp in pairs:
         compd = dict(zip(names, comp))
         for extra in range(0, max_cn):
             if extra and not default:
